@@ -2,3 +2,4 @@ import Proofs.Slots
 import Proofs.Scan
 import Proofs.Cli
 import Proofs.CliClean
+import Proofs.CliContract
